@@ -469,7 +469,9 @@ where
 
     let mut prev_count_left = usize::MAX;
     loop {
-        let split_target = (min + max) / 2.0;
+        // Halve before adding: `min + max` overflows for coordinates beyond
+        // half of the f32 range although both bounds are finite.
+        let split_target = min / 2.0 + max / 2.0;
 
         // count_left: the number of points that are on the left of split_target
         // weight_left: the weight of all those points
